@@ -289,7 +289,21 @@ def check_varlist_width(ctx, rule='R-VARLISTWIDTH'):
                         if (op == '==' and child is p.orelse) or (op == '!=' and child is p.body):
                             guarded = True
                     child, p = p, getattr(p, '_parent', None)
-                if guarded:
+                edited = None
+                if guarded and nm is not None:
+                    for st2 in iter_stmts(fn.body):
+                        if st2.lineno >= st.lineno:
+                            continue
+                        if isinstance(st2, (ast.Assign, ast.AugAssign)) and any(isinstance(t, ast.Name) and t.id == nm for t in
+                                                                               (st2.targets if isinstance(st2, ast.Assign) else [st2.target])) \
+                                and any(isinstance(x, ast.Call) and isinstance(x.func, ast.Attribute) and x.func.attr in ('strip', 'rstrip', 'lstrip', 'replace')
+                                        for x in walk_expr(st2.value)):
+                            edited = st2
+                if edited is not None:
+                    ctx.violation(Finding(rule, rp, q, edited,
+                                          'the length tested for a multiple of 16 is that of an edited copy of VAR-LIST (%s): a list whose last field is padded is then '
+                                          'split at white space, and a 16-character name is glued to its neighbour' % norm(edited)[:60]), oid=oid)
+                elif guarded:
                     ctx.ok(rule, oid, where, 'white-space split only when the length is not a multiple of 16')
                 else:
                     ctx.violation(Finding(rule, rp, q, st,
@@ -297,6 +311,60 @@ def check_varlist_width(ctx, rule='R-VARLISTWIDTH'):
                                           'read as one name, and NVARS / VAR / TFLAG no longer agree with the list (cut the attribute in 16-character fields)'),
                                   oid=oid)
     ctx.floor('VAR-LIST decode sites judged by R-VARLISTWIDTH', n, 1)
+
+
+def check_tflag_unlisted(ctx, rule='R-TFLAGUNLISTED'):
+    """VAR-LIST names the data variables; TFLAG / ETFLAG are never part of it (NVARS counts the list, the VAR dimension and the second
+    axis of TFLAG count the data variables).  The one function that appends names to the attribute either drops the two names itself,
+    or every call of it is made under a test that excludes them."""
+    ctx.rule(rule, 'names appended to VAR-LIST never include TFLAG / ETFLAG (excluded by the appending function or at every call of it)')
+    m = ctx.src.mod(IO)
+    n = 0
+    appenders = []
+    for q, fn in sorted(m.functions.items()):
+        stores = [st for st in iter_stmts(fn.body) if isinstance(st, ast.Expr) and isinstance(st.value, ast.Call) and (dotted(st.value.func) or '') == 'setattr'
+                  and len(st.value.args) == 3 and const_str(st.value.args[1]) == 'VAR-LIST' and not isinstance(st.value.args[2], ast.Constant)]
+        grows = [st for st in iter_stmts(fn.body) if isinstance(st, ast.AugAssign) and isinstance(st.op, ast.Add)
+                 and any(isinstance(x, ast.Call) and isinstance(x.func, ast.Attribute) and x.func.attr == 'ljust' for x in walk_expr(st.value))]
+        if stores and grows:
+            appenders.append((q, fn, grows[0]))
+    if not appenders:
+        raise AnalysisError('no function appends names to VAR-LIST any more (anchor for %s)' % rule)
+
+    def excludes(node):
+        return any(isinstance(x, ast.Constant) and x.value == 'TFLAG' for x in ast.walk(node))
+    for q, fn, grow in appenders:
+        where = 'src/PseudoNetCDF/%s %s' % (IO, q)
+        n += 1
+        if any(excludes(st) for st in iter_stmts(fn.body) if not isinstance(st, (ast.If, ast.For, ast.While, ast.With, ast.Try))) or \
+                any(excludes(st.test) for st in iter_stmts(fn.body) if isinstance(st, (ast.If, ast.While))):
+            ctx.ok(rule, q, where, 'the appending function drops TFLAG / ETFLAG from the new names')
+            continue
+        short = q.split('.')[-1]
+        for cq, cfn in sorted(m.functions.items()):
+            for c in walk_expr(cfn):
+                if not (isinstance(c, ast.Call) and isinstance(c.func, ast.Attribute) and c.func.attr == short) or getattr(c, '_fn', cfn) is not cfn:
+                    continue
+                n += 1
+                guarded = any(excludes(a) for a in c.args)
+                child, p_ = c, getattr(c, '_parent', None)
+                while p_ is not None and p_ is not cfn:
+                    if isinstance(p_, (ast.If, ast.IfExp)) and child is not p_.test and excludes(p_.test):
+                        guarded = True
+                    child, p_ = p_, getattr(p_, '_parent', None)
+                # names bound from a filtered construction
+                for a in c.args:
+                    if isinstance(a, ast.Name):
+                        for st in iter_stmts(cfn.body):
+                            if isinstance(st, ast.Assign) and any(isinstance(t, ast.Name) and t.id == a.id for t in st.targets) and excludes(st.value):
+                                guarded = True
+                cw = 'src/PseudoNetCDF/%s %s' % (IO, cq)
+                if guarded:
+                    ctx.ok(rule, '%s:%s' % (cq, norm(c)[:40]), cw, 'called under a test / with a list that excludes TFLAG')
+                else:
+                    ctx.violation(Finding(rule, IO, cq, c, '%s appends every name it is given, and this call does not exclude TFLAG / ETFLAG: copying or evaluating a time flag lists '
+                                          'it in VAR-LIST and counts it in NVARS while the VAR dimension and TFLAG keep the number of data variables' % short))
+    ctx.floor('VAR-LIST appending sites', n, 1)
 
 
 def check_start_sync(ctx, rule='R-STARTSYNC'):
@@ -892,6 +960,7 @@ def run(ctx):
     else:
         ctx.violation(Finding('R-TFLAGRESTORE', IO, 'ioapi_base.createVariable', cvf.body[-1], 'TFLAG can be created with a fill value: mask(coords=True) then masks time flags, and the masked/filled flags are decoded as times'), oid='createVariable')
     check_varlist_width(ctx)
+    check_tflag_unlisted(ctx)
     check_start_sync(ctx)
     check_dim_reset(ctx)
     check_time_reduce(ctx)
